@@ -91,6 +91,10 @@ def _cfg_expr(tx, feats):
         return any(vals)
     if tx[0] == "test":
         return False
+    if tx[0] == "target_pointer_width" and tx[1] == "=":
+        return tx[2].strip('"') == "64"          # verified for 64-bit targets (stated in the evidence)
+    if tx[0] in ("atomic32", "atomic64"):
+        return True
     if tx[0] == "kani" or tx[0] == "verus_keep_ghost":
         return False
     raise VxError("cfg predicate not understood: %s" % " ".join(tx))
@@ -227,7 +231,8 @@ class Expander:
                 self.log.append("rewrite (all items): `%s` -> `%s`" % (old.strip(), new.strip()))
             elif d.startswith("struct ") or d.startswith("enum ") or d.startswith("const ") or d.startswith("static "):
                 kind, rel, name = d.split()[:3]
-                self.item_simple(kind, rel, name)
+                opts = dict(kv.split("=", 1) for kv in d.split()[3:] if "=" in kv)
+                self.item_simple(kind, rel, name, opts)
             elif d.startswith("impl ") or d.startswith("trait "):
                 kind, rel, hdr = d.split(None, 2)
                 self.open_block(kind, rel, hdr)
@@ -325,7 +330,8 @@ class Expander:
         return out
 
     # ---------------------------------------------------------------- simple items
-    def item_simple(self, kind, rel, name):
+    def item_simple(self, kind, rel, name, opts=None):
+        opts = opts or {}
         src = Src.get(self.repo, rel)
         toks = src.toks
         cands = [i for i in top_level_positions(toks, 0, len(toks), kind)
@@ -355,6 +361,10 @@ class Expander:
             a_lo = min(a for a, _ in attrs)
             pieces.append(Piece("rep", "", rtok.emit(toks[a_lo:start]).strip()))
             self.log.append("%s %s: attributes dropped: %s" % (kind, name, rtok.emit(toks[a_lo:start]).strip().replace("\n", " ")))
+        if opts.get("derive"):
+            # a subset of the dropped derive list is kept (Verus supports Clone / Copy derives)
+            pieces.append(Piece("ins", "#[derive(%s)]\n" % opts["derive"].replace(",", ", ")))
+            self.log.append("%s %s: kept derive(%s) of the dropped attribute list" % (kind, name, opts["derive"]))
         body = toks[start:end]
         if kind == "struct":
             pieces.extend(self._pub_fields(body, name))
